@@ -16,8 +16,15 @@
 (* Kardia deviations from Tendermint that are modelled as such: rounds start *)
 (* at 1 (0 = "none": LockedRound, ValidRound, POLRound < 1), HeightVoteSet    *)
 (* .SetRound creates round 0 on its first call, a vote is signed with the     *)
-(* CURRENT cs.Round (the deferred updateRoundStep runs after signing), the    *)
-(* POL-round check of setProposal is vacuous for unsigned rounds.             *)
+(* CURRENT cs.Round (the deferred updateRoundStep runs after signing).  The  *)
+(* POL-round check of setProposal was vacuous for unsigned rounds in the code *)
+(* as found; it was repaired (d00f155) and is modelled as repaired.           *)
+(*                                                                           *)
+(* Validator sets may change from height to height: PowerAt[h][i] is the      *)
+(* power of validator IDENTITY i (its key) in the set of height h, 0 = not a  *)
+(* member; every quorum predicate carries the height of the vote set it       *)
+(* judges (LastCommit: h-1).  WaitForTxs selects the default configuration    *)
+(* (round 1 of a height is proposed when the NewRound timeout fires).         *)
 (*                                                                           *)
 (* Abstractions: a block is its id (a string); a block has one part; block   *)
 (* validity (cstate.validateBlock) is the predicate bid \notin InvalidBids;   *)
@@ -27,7 +34,7 @@
 (***************************************************************************)
 EXTENDS Integers, Sequences, FiniteSets, TLC
 
-CONSTANTS N,            \* number of validators; indices 1..N = order of ValidatorSet.Validators
+CONSTANTS N,            \* number of validator identities 1..N
           PowerAt,      \* PowerAt[h][i] = voting power of validator i in the set of height h (0: not a member);
                         \* i is the validator's identity (its key), not its position in the set of a height
           ProposerOf,   \* ProposerOf[h][r] = index of the proposer of round r at height h
